@@ -66,6 +66,19 @@ Theorem C16_cut_ranges_not_inside :
 Proof. exact cut_range_not_inside. Qed.
 Print Assumptions C16_cut_ranges_not_inside.
 
+(* ---- the pass over the formulas outside the cut area -------------------------------------------- *)
+(* the cells get_external_formula_updates_for_cut leaves alone are exactly the cells of the cut area;
+   in particular a formula on another sheet is never skipped, whatever its coordinates *)
+Theorem C16_external_skipped_is_the_cut_area :
+  forall a sheet row col, external_skipped a sheet row col = ref_is_in_area sheet row col a.
+Proof. exact external_skipped_is_in_area. Qed.
+Print Assumptions C16_external_skipped_is_the_cut_area.
+
+Theorem C16_external_other_sheet_never_skipped :
+  forall a sheet row col, sheet <> ma_sheet a -> external_skipped a sheet row col = false.
+Proof. exact external_other_sheet_never_skipped. Qed.
+Print Assumptions C16_external_other_sheet_never_skipped.
+
 (* ---- copy --------------------------------------------------------------------------------------- *)
 Theorem C16_copy :
   forall m_target nm env e,
